@@ -22,15 +22,24 @@ type Violation struct {
 // RunCtx is per-run scratch shared by a scenario's Body (inside the simulation) and
 // After (outside).
 type RunCtx struct {
-	Viols       []*Violation
-	Data        interface{}
-	Sample      interface{}
-	OutcomeHash uint64
+	Viols        []*Violation
+	Data         interface{}
+	Sample       interface{}
+	OutcomeHash  uint64
 	Inconclusive int
-	NonTrivial  bool // scenario may force (e.g. fault enumeration cells)
-	Cells       []string // extra distinct-coverage cells (C04)
-	Cell        int    // index of the enumerated cell (scenarios with Cells > 0)
-	Label       string // human label of the case (fallback violation signature)
+	NonTrivial   bool     // scenario may force (e.g. fault enumeration cells)
+	Cells        []string // extra distinct-coverage cells (C04)
+	Cell         int      // index of the enumerated cell (scenarios with Cells > 0)
+	Label        string   // human label of the case (fallback violation signature)
+	Probes       map[string]int
+}
+
+// Probe counts a rare-situation probe from post-run (outside-simulation) code.
+func (rc *RunCtx) Probe(name string) {
+	if rc.Probes == nil {
+		rc.Probes = map[string]int{}
+	}
+	rc.Probes[name]++
 }
 
 //go:norace
@@ -65,26 +74,26 @@ func register(s *Scenario) { scenarios[s.Prop] = append(scenarios[s.Prop], s) }
 
 // RunReport is everything the runner learns from one run.
 type RunReport struct {
-	Scenario   string             `json:"scenario"`
-	Cell       int                `json:"cell"`
-	Seed       uint64             `json:"seed"`
-	Viols      []*Violation       `json:"viols,omitempty"`
-	Tape       simrt.Tape         `json:"tape"`
-	Hash       uint64             `json:"hash"`
-	NonTrivial bool               `json:"nontrivial"`
-	Steps      int64              `json:"steps"`
-	Switches   int64              `json:"switches"`
-	VirtualNs  int64              `json:"virtual_ns"`
-	Policy     int                `json:"policy"`
-	Faults     map[string]int     `json:"faults,omitempty"`
-	Probes     map[string]int     `json:"probes,omitempty"`
-	Sample     interface{}        `json:"sample,omitempty"`
-	Trace      []string           `json:"trace,omitempty"`
-	Machinery  string             `json:"machinery,omitempty"` // non-empty: machinery trouble (exit 2)
-	Stepcap    bool               `json:"stepcap,omitempty"`
-	Inconclusive int              `json:"inconclusive,omitempty"`
-	Cells      []string           `json:"cells,omitempty"`
-	HarnessRaces int              `json:"harness_races,omitempty"`
+	Scenario     string         `json:"scenario"`
+	Cell         int            `json:"cell"`
+	Seed         uint64         `json:"seed"`
+	Viols        []*Violation   `json:"viols,omitempty"`
+	Tape         simrt.Tape     `json:"tape"`
+	Hash         uint64         `json:"hash"`
+	NonTrivial   bool           `json:"nontrivial"`
+	Steps        int64          `json:"steps"`
+	Switches     int64          `json:"switches"`
+	VirtualNs    int64          `json:"virtual_ns"`
+	Policy       int            `json:"policy"`
+	Faults       map[string]int `json:"faults,omitempty"`
+	Probes       map[string]int `json:"probes,omitempty"`
+	Sample       interface{}    `json:"sample,omitempty"`
+	Trace        []string       `json:"trace,omitempty"`
+	Machinery    string         `json:"machinery,omitempty"` // non-empty: machinery trouble (exit 2)
+	Stepcap      bool           `json:"stepcap,omitempty"`
+	Inconclusive int            `json:"inconclusive,omitempty"`
+	Cells        []string       `json:"cells,omitempty"`
+	HarnessRaces int            `json:"harness_races,omitempty"`
 }
 
 var raceLogPath string
@@ -135,6 +144,12 @@ func runOne(sc *Scenario, seed uint64, replay *simrt.Tape, trace bool, cell int)
 			}
 			rep.HarnessRaces = hr
 		}
+	}
+	for k, v := range rc.Probes {
+		if rep.Probes == nil {
+			rep.Probes = map[string]int{}
+		}
+		rep.Probes[k] += v
 	}
 	rep.Viols = rc.Viols
 	rep.Sample = rc.Sample
